@@ -4,7 +4,7 @@ from common import *
 from gen import P, DYADIC_POS
 
 ID = "C05"
-THEOREM_FILES = ["Summer.Props.C05", "Summer.Props.C01Rates", "Summer.Props.C05Source"]
+THEOREM_FILES = ["Summer.Props.C05", "Summer.Props.C01Rates", "Summer.Props.C05Source", "Summer.Props.C07Pipeline"]
 TASK = "task"
 RULE = ("programs forced to contain infection flows, with 0-3 mixing matrices (static / parameterised / time-varying), optional strain "
         "stratification, infectiousness adjustments, full and partial stratifications; one_step at states with positive category "
